@@ -514,9 +514,10 @@ class rewrite_fact(Method):
             state.set_line(id, 'rewrite_fact', args=data['theorem'], prevs=prevs)
 
         id2 = id.incr_id(1)
-        new_id = state.find_goal(state.get_proof_item(id2).th, id2)
-        if new_id is not None:
-            state.replace_id(id2, new_id)
+        if state.get_proof_item(id2).rule == 'sorry':
+            new_id = state.find_goal(state.get_proof_item(id2).th, id2)
+            if new_id is not None:
+                state.replace_id(id2, new_id)
 
 
 @register_method('rewrite_fact_with_prev')
@@ -549,9 +550,10 @@ class rewrite_fact_with_prev(Method):
         state.set_line(id, 'rewrite_fact_with_prev', prevs=prevs)
 
         id2 = id.incr_id(1)
-        new_id = state.find_goal(state.get_proof_item(id2).th, id2)
-        if new_id is not None:
-            state.replace_id(id2, new_id)
+        if state.get_proof_item(id2).rule == 'sorry':
+            new_id = state.find_goal(state.get_proof_item(id2).th, id2)
+            if new_id is not None:
+                state.replace_id(id2, new_id)
 
 
 @register_method('apply_forward_step')
@@ -618,9 +620,10 @@ class apply_forward_step(Method):
             state.set_line(id, 'apply_theorem', args=data['theorem'], prevs=prevs)
 
         id2 = id.incr_id(1)
-        new_id = state.find_goal(state.get_proof_item(id2).th, id2)
-        if new_id is not None:
-            state.replace_id(id2, new_id)
+        if state.get_proof_item(id2).rule == 'sorry':
+            new_id = state.find_goal(state.get_proof_item(id2).th, id2)
+            if new_id is not None:
+                state.replace_id(id2, new_id)
 
 
 @register_method('apply_backward_step')
